@@ -13,6 +13,9 @@ PROPS['C03'] = dict(level='model_checking',
   outside='more than 2 concurrent participants (quick), weak memory orderings',
   harnesses=[
     H('stop_reg_vs_stop', 'C03_stop.cpp', ['h_reg1', 'h_stop_a'], 26, final='h_final_1s', desc='register/deregister racing one request_stop'),
+    H('stop_vs_stop_dereg', 'C03_stop.cpp', ['h_stop_a', 'h_stop_then_dereg'], 26, setup='h_setup_reg1', final='h_final_regd', desc='two request_stop callers, the second then deregisters the callback'),
+    H('self_dereg_two_stoppers', 'C03_stop.cpp', ['h_stop_a', 'h_stop_b'], 26, setup='h_setup_reg3', final='h_final_self', desc='callback destroys its own registration while two threads request stop'),
+    H('cross_dereg', 'C03_stop.cpp', ['h_stop_a', 'h_observer'], 20, setup='h_setup_reg14', final='h_final_cross', desc='callback deregisters another pending registration (3 registrations)'),
   ])
 
 PROPS['C15'] = dict(level='model_checking',
@@ -33,5 +36,7 @@ PROPS['C08'] = dict(level='model_checking',
   bounds='v2 scope: 2 nesting threads (nest+start+complete own leaf) + 1 joiner (quick), 1 nester + 2 joiners; K per harness',
   outside='more than 2 concurrently nested operations',
   harnesses=[
-    H('v2_two_nest_one_join', 'C08_scope_v2.cpp', ['h_nest0', 'h_nest1', 'h_join0'], 24, final='h_final1', desc='two nest/start/complete racing join'),
+    H('v2_nest_vs_join', 'C08_scope_v2.cpp', ['h_nest0', 'h_join0'], 18, final='h_final11', desc='nest/start/complete racing join'),
+    H('v2_two_nest_one_join', 'C08_scope_v2.cpp', ['h_nest0', 'h_nest1', 'h_join0'], 24, final='h_final21', tier='thorough', timeout=3000, desc='two nest/start/complete racing join'),
+    H('v2_nest_two_joins', 'C08_scope_v2.cpp', ['h_nest0', 'h_join0', 'h_join1'], 24, final='h_final12', tier='thorough', timeout=3000, desc='one nest racing two joins'),
   ])
